@@ -100,17 +100,27 @@ Definition dec_scheme (x : sx) : option scheme :=
 Definition wres_sx (r : wres) : sx :=
   match r with WDialError => SL [SZ 0] | WNoTls => SL [SZ 1] | WAuth b => SL [SZ 2; SB b] end.
 
-Definition run_ws (ins addr reds : sx) : sx :=
-  match as_b ins, dec_scheme addr, as_list dec_scheme reds with
-  | Some i, Some a, Some rs =>
+(* the TLS configuration of the application and what crypto/x509 says about the certificate of the https
+   endpoint: the model decides the handshake (the host of the URL in the place of the domain) *)
+Definition dec_wstls (x : sx) : option bool :=
+  match x with
+  | SL [sk; SS sn; SS host; tr; ns] =>
+      do sk' <- as_b sk; do tr' <- as_b tr; do ns' <- as_list as_s ns;
+      Some (handshake_ok {| t_skip := sk'; t_servername := sn; t_domain := host |} {| c_trusted := tr'; c_names := ns' |})
+  | _ => None
+  end.
+
+Definition run_ws (ins addr reds tls : sx) : sx :=
+  match as_b ins, dec_scheme addr, as_list dec_scheme reds, dec_wstls tls with
+  | Some i, Some a, Some rs, Some ok =>
       (* the endpoint reached completes the negotiation: connect() succeeds iff authentication was reached *)
-      let r := ws_connect i a rs in SL [wres_sx r; SB (match r with WAuth _ => true | _ => false end)]
-  | _, _, _ => decode_error
+      let r := ws_connect i ok a rs in SL [wres_sx r; SB (match r with WAuth _ => true | _ => false end)]
+  | _, _, _, _ => decode_error
   end.
 
 Definition run_C04 (x : sx) : sx :=
   match x with
   | SL [SZ 0; y; plans; tlsdata] => run_gate y plans tlsdata
-  | SL [SZ 1; ins; addr; reds] => run_ws ins addr reds
+  | SL [SZ 1; ins; addr; reds; tls] => run_ws ins addr reds tls
   | _ => decode_error
   end.
